@@ -23,6 +23,11 @@ thread_local! {
     pub static ABORTS: RefCell<BTreeMap<u8, Box<dyn Fn()>>> = RefCell::new(BTreeMap::new());
 }
 
+thread_local! {
+    /// Legacy capability contexts of the app whose `update` is currently building a command.
+    pub static CAPS: RefCell<Option<(crux_core::capability::CapabilityContext<OpA, Event>, crux_core::capability::CapabilityContext<OpB, Event>)>> = const { RefCell::new(None) };
+}
+
 pub fn clear_aborts() {
     ABORTS.with(|a| a.borrow_mut().clear());
 }
@@ -236,6 +241,21 @@ pub fn build(p: &P) -> Cmd {
             }
         }),
         P::Manual(q) => build(&q),
+        // the legacy part was started by `update` itself (app.rs: start_legacy_parts)
+        P::Legacy(_) => Command::done(),
+        P::MixedNotify(s, n) => {
+            let (ca, cb) = CAPS.with(|c| c.borrow().clone()).expect("MixedNotify can only be built inside update");
+            Command::new(move |ctx| async move {
+                let v = areq(&ctx, s, 0).await;
+                if is_b(n.label) {
+                    let c2 = cb.clone();
+                    cb.spawn(async move { c2.notify_shell(OpB::make(n.label, v)).await });
+                } else {
+                    let c2 = ca.clone();
+                    ca.spawn(async move { c2.notify_shell(OpA::make(n.label, v)).await });
+                }
+            })
+        }
         P::SiblingAbort(s, q) => {
             let inner = build(&q);
             let h = inner.abort_handle();
